@@ -38,7 +38,7 @@ def opMethods : List OpMethod := [
     engineCalls := [("measure_qubit", true)], unrecognised := false },
   { name := "remote_cnot_onto", line := 227, noiseFirst := true, noiseCalls := 1,
     engineCalls := [("apply_CNOT", true)], unrecognised := false },
-  { name := "remote_cphase_onto", line := 239, noiseFirst := false, noiseCalls := 1,
+  { name := "remote_cphase_onto", line := 239, noiseFirst := true, noiseCalls := 1,
     engineCalls := [("apply_CPHASE", true)], unrecognised := false }
 ]
 
